@@ -169,6 +169,10 @@ theorem step_eff (cfg : Cfg) (s : St) (x : Act) :
       | (rw [e]; exact upd _ t _ rfl rfl rfl)
   | adjust k => exact ⟨.inl rfl, fun h => absurd rfl (h k)⟩
   | peerEof => simp only [step]; split <;> exact same _ rfl rfl
+  | emitFail t =>
+    simp only [step]; split
+    · exact upd _ t _ rfl rfl rfl
+    · exact same s rfl rfl
   | unlink => simp only [step]; split <;> exact same _ rfl rfl
   | shutdownRead => exact same _ rfl rfl
   | setMode m => exact same _ rfl rfl
@@ -303,6 +307,7 @@ theorem nstep_nolost (n : NCfg) (hn : n.adjustAll = true) (cfg : Cfg) (z : NSt) 
   | peerEof => exact other _ (sig_grows n _ _ _) (by intro k h; cases h) (by intro t dt h; cases h)
   | peerClose t => exact other _ (sig_grows n _ _ _) (by intro k h; cases h) (by intro t dt h; cases h)
   | requestFailed t => exact other _ (sig_grows n _ _ _) (by intro k h; cases h) (by intro t dt h; cases h)
+  | emitFail t => exact other _ (sig_grows n _ _ _) (by intro k h; cases h) (by intro t dt h; cases h)
   | unlink => exact other _ (sig_grows n _ _ _) (by intro k h; cases h) (by intro t dt h; cases h)
 
 theorem nrun_nolost (n : NCfg) (hn : n.adjustAll = true) (cfg : Cfg) (z : NSt) (as : List Act) (hi : NoLost z) :
